@@ -54,6 +54,12 @@ Pr = U(Pressure, "vPr"); Pr.equals(4 * Fo / La**2)
 Ps = U(Pressure, "vPs"); Ps.equals(0.5 * Pr)
 En = U(Energy, "vEn"); En.equals(2 * Fo * La)
 Ki = Prefix(2, 10); Mi2 = Prefix(2, 20); Hf = Prefix(2, -1)
+# S4: equivalences written with a left-hand magnitude other than one, or a prefixed left-hand unit
+from measured import conversions
+Le = U(Length, "vLe"); conversions.equate(2 * Le, 16 * La)
+Lf = U(Length, "vLf"); (Ki * Lf).equals(4 * La)
+Mc = U(Mass, "vMc"); conversions.equate(4 * Mc, 2 * Mb)
+Tc = U(Time, "vTc"); conversions.equate(0.5 * (Hf * Tc), 8 * Ta)
 '''
 
 SYNTHETIC_PAIRS = [
@@ -68,6 +74,8 @@ SYNTHETIC_PAIRS = [
     ("Lc", "Ki*La"), ("(Ki*La)**2", "Aa"), ("Mi2*Aa", "(Ki*Lc)**2"), ("Hf*Ta", "Tb"),
     ("Sa/Ta", "Lb/Tb**2"), ("Ma*Sa", "Mb*Sb"), ("La**-2", "Aa**-1"), ("Aa**-1", "Lb**-2"),
     ("Pr*Aa", "Fo"), ("En/Va", "Pr"), ("Lb**2/Tb", "Aa/Ta"), ("Va/Ta", "Lb**3/Tb"),
+    ("Le", "La"), ("La", "Le"), ("Lf", "La"), ("La", "Lf"), ("Le", "Lf"), ("Lb", "Le"), ("Le**2", "Aa"),
+    ("Mc", "Ma"), ("Ma", "Mc"), ("Mc*Le", "Mb*La"), ("Tc", "Ta"), ("Tb", "Tc"), ("Le/Tc", "Sa"),
 ]
 
 # exact size of each synthetic unit relative to (La, Ta, Ma), written by hand from the
@@ -79,6 +87,8 @@ SYNTHETIC_SIZES = {
     "Sa": (2, (1, -1, 0)), "Sb": (Fraction(1, 64), (1, -1, 0)), "Fa": (8, (0, -1, 0)),
     "Ma": (1, (0, 0, 1)), "Mb": (16, (0, 0, 1)), "Fo": (2, (1, -2, 1)), "Fp": (16, (1, -2, 1)),
     "Pr": (8, (-1, -2, 1)), "Ps": (4, (-1, -2, 1)), "En": (4, (2, -2, 1)), "One": (1, (0, 0, 0)),
+    "Le": (8, (1, 0, 0)), "Lf": (Fraction(4, 1024), (1, 0, 0)), "Mc": (8, (0, 0, 1)),
+    "Tc": (32, (0, 1, 0)),
     "Ki": (1024, (0, 0, 0)), "Mi2": (2 ** 20, (0, 0, 0)), "Hf": (Fraction(1, 2), (0, 0, 0)),
 }
 
